@@ -46,6 +46,26 @@ fn replay_c18_json_files_round_trip() {
             Err(e) => failures.push(format!("key file, write #{} to the same path: the file written cannot be read back: {}", generation, e)),
         }
     }
+    // every valid JSON encoding of a key decodes to that key, whatever the reader: a streaming reader (no borrowed strings), a
+    // `Value` tree, and a file whose writer escaped `/` as `\/` (a legal JSON escape; base64 keys contain `/`)
+    for (name, secret) in keys.iter() {
+        let s = Secret { name: *name, secret: SecretKey::decode_base64(&secret.encode_base64()).unwrap() };
+        let text = serde_json::to_string_pretty(&s).unwrap();
+        let same = |back: &Secret| back.name == *name && back.secret.encode_base64() == secret.encode_base64();
+        match serde_json::from_reader::<_, Secret>(std::io::Cursor::new(text.clone().into_bytes())) {
+            Ok(back) => if !same(&back) { failures.push("key file read through a streaming reader: a different key pair is read back".to_string()); },
+            Err(e) => failures.push(format!("key file read through a streaming reader (serde_json::from_reader) cannot be decoded: {}", e)),
+        }
+        match serde_json::from_value::<Secret>(serde_json::to_value(&s).unwrap()) {
+            Ok(back) => if !same(&back) { failures.push("key pair through serde_json::Value: a different key pair is read back".to_string()); },
+            Err(e) => failures.push(format!("key pair through serde_json::Value cannot be decoded: {}", e)),
+        }
+        let escaped = text.replace('/', "\\/");
+        match serde_json::from_slice::<Secret>(escaped.as_bytes()) {
+            Ok(back) => if !same(&back) { failures.push("key file with `/` escaped as `\\/`: a different key pair is read back".to_string()); },
+            Err(e) => failures.push(format!("key file whose writer escaped `/` as `\\/` cannot be decoded: {}", e)),
+        }
+    }
     // committee files: sizes 4, 7, 2, 5 exported one after the other to the same path, and each to a fresh path
     let names: Vec<PublicKey> = keys.iter().map(|(k, _)| *k).collect();
     let same_path = dir.join("committee.json");
